@@ -110,6 +110,11 @@ pub fn gen(seed: u64, b: i64, nops: usize) -> Value {
             }
             // now and then the id of a frame that is (probably) already stored: the same frame again is
             // a no-op, a different one must be rejected whole
+            if !stored.is_empty() && rng.gen_range(0..100) < 10 {
+                // the identical frame once more: changes nothing, whatever TTLs its topic carries
+                ops.push(json!({"op": "reimport", "id": stored[rng.gen_range(0..stored.len())]}));
+                continue;
+            }
             if !stored.is_empty() && rng.gen_range(0..100) < 12 {
                 let id = stored[rng.gen_range(0..stored.len())];
                 let c = if rng.gen_bool(0.6) || ctxs.is_empty() { 0 } else { ctxs[rng.gen_range(0..ctxs.len())] };
